@@ -476,6 +476,15 @@ func corrExt2(r *hx.Rng, n int, id *int) {
 		}
 		pb, ptr, _ := runPlainXOnce(pcap, pops, i%4 == 2)
 		emitX("P", pcap, pops, pb, ptr)
+		// FixedSliceWriter.WriteBits / WriteFlag / FlushBits with the same wide ops, roomy or tight
+		fops := make([]fop, len(pops))
+		for j, o := range pops {
+			fops[j] = fop{k: string(o.k), v: o.v, w: o.w}
+		}
+		fcap := r.Range(0, len(pfull)+4)
+		fb, ftr := runFSW(fcap, fops)
+		fmt.Fprintf(out, "F\t%d\t%d\t%s\t%s\t%s\n", *id, fcap, fopsString(fops), hx.Hex(fb), ftr)
+		*id++
 		// readers on arbitrary / zero-heavy bytes, wide ops, reads continuing after the first error
 		var data []byte
 		switch r.Intn(3) {
